@@ -451,3 +451,17 @@ def component_array_c04(ctx):
     shared with C03"""
     from contracts.C03 import component_array
     component_array(ctx)
+
+
+@unit("C04", "fixing_rows/ext_grid", functions=["pandapipes.component_models.ext_grid_component:ExtGrid.create_pit_node_entries"], engine="E3")
+def fixing_rows_ext_grid_c04(ctx):
+    """only IN-SERVICE pressure-fixing elements make a junction a root of the connectivity search (shared with C03)"""
+    from contracts.C03 import fixing_rows_ext_grid
+    fixing_rows_ext_grid(ctx)
+
+
+@unit("C04", "fixing_rows/circ_pump", functions=["pandapipes.component_models.abstract_models.circulation_pump:CirculationPump.create_pit_node_entries"],
+      engine="E3")
+def fixing_rows_circ_pump_c04(ctx):
+    from contracts.C03 import fixing_rows_circ_pump
+    fixing_rows_circ_pump(ctx)
